@@ -369,6 +369,9 @@ def b_len(I, fv, args, kw):
 
 def b_sum(I, fv, args, kw):
     v = I.resolve(args[0])
+    from .values import VAny as _VAny
+    if isinstance(v, _VAny):
+        return I.any_child(v, "sum")        # state with an unknown history: an arbitrary value
     if isinstance(v, VBytes):
         return py_sum_bytes(I, v)
     acc = mkint(0)
